@@ -6,6 +6,7 @@ import (
 	"go/token"
 	"go/types"
 	"golang.org/x/tools/go/packages"
+	"regexp"
 	"sort"
 	"strings"
 )
@@ -66,6 +67,25 @@ func factAdder(parents map[ast.Node]ast.Node, at ast.Node, out *[]condFact) func
 	}
 	add = func(e ast.Expr, neg bool) {
 		e = ast.Unparen(e)
+		// the success flag of a substituted helper (inline.go): ok true means that none of the helper's early exits, which
+		// set it to false, was taken - the conditions of those exits are false
+		if id, isId := e.(*ast.Ident); isId && !neg && curProg != nil && depth < 4 {
+			top := at
+			for parents[top] != nil {
+				top = parents[top]
+			}
+			if info := curProg.InfoAt(top.Pos()); info != nil {
+				if gs := inlinedFlagGuards(info, top, info.Uses[id]); len(gs) > 0 {
+					*out = append(*out, condFact{e, neg})
+					depth++
+					for _, g := range gs {
+						add(g, true)
+					}
+					depth--
+					return
+				}
+			}
+		}
 		if factExpand != nil && depth < 4 {
 			if x := factExpand(e); x != nil && x != e {
 				depth++
@@ -100,6 +120,103 @@ func factAdder(parents map[ast.Node]ast.Node, at ast.Node, out *[]condFact) func
 		*out = append(*out, condFact{e, neg})
 	}
 	return add
+}
+
+var inlLabel = regexp.MustCompile(`^inl\d+L$`)
+
+// inlinedFlagGuards: flag is a boolean local that is assigned only inside ONE block the helper inliner produced
+// (inlNL: switch { default: ... }), where every early exit (`if G { ...; flag = false; break inlNL }`, at the top level of
+// the block) sets it to the literal false. Then flag == true implies that every such G was false. Returns those G.
+func inlinedFlagGuards(info *types.Info, top ast.Node, flag types.Object) []ast.Expr {
+	if flag == nil {
+		return nil
+	}
+	if b, ok := flag.Type().Underlying().(*types.Basic); !ok || b.Kind() != types.Bool {
+		return nil
+	}
+	var block *ast.LabeledStmt
+	assigns, inside := 0, 0
+	ast.Inspect(top, func(n ast.Node) bool {
+		if as, ok := n.(*ast.AssignStmt); ok {
+			for _, l := range as.Lhs {
+				if identObj(info, l) == flag {
+					assigns++
+				}
+			}
+		}
+		return true
+	})
+	ast.Inspect(top, func(n ast.Node) bool {
+		ls, ok := n.(*ast.LabeledStmt)
+		if !ok || !inlLabel.MatchString(ls.Label.Name) {
+			return true
+		}
+		cnt := 0
+		ast.Inspect(ls, func(q ast.Node) bool {
+			if as, ok := q.(*ast.AssignStmt); ok {
+				for _, l := range as.Lhs {
+					if identObj(info, l) == flag {
+						cnt++
+					}
+				}
+			}
+			return true
+		})
+		if cnt > 0 && block == nil {
+			block, inside = ls, cnt
+		}
+		return true
+	})
+	if block == nil || inside != assigns {
+		return nil
+	}
+	sw, ok := block.Stmt.(*ast.SwitchStmt)
+	if !ok || sw.Tag != nil || len(sw.Body.List) != 1 {
+		return nil
+	}
+	body := sw.Body.List[0].(*ast.CaseClause).Body
+	breaks := 0
+	ast.Inspect(block, func(n ast.Node) bool {
+		if bs, ok := n.(*ast.BranchStmt); ok && bs.Tok == token.BREAK && bs.Label != nil && bs.Label.Name == block.Label.Name {
+			breaks++
+		}
+		return true
+	})
+	setsFalse := func(list []ast.Stmt) bool {
+		found := false
+		for _, s := range list {
+			as, ok := s.(*ast.AssignStmt)
+			if !ok || len(as.Lhs) != len(as.Rhs) {
+				continue
+			}
+			for i, l := range as.Lhs {
+				if identObj(info, l) == flag {
+					id, isId := ast.Unparen(as.Rhs[i]).(*ast.Ident)
+					found = isId && id.Name == "false"
+				}
+			}
+		}
+		return found
+	}
+	var guards []ast.Expr
+	for _, s := range body {
+		ifs, ok := s.(*ast.IfStmt)
+		if !ok || ifs.Else != nil || len(ifs.Body.List) == 0 {
+			continue
+		}
+		last, ok := ifs.Body.List[len(ifs.Body.List)-1].(*ast.BranchStmt)
+		if !ok || last.Tok != token.BREAK || last.Label == nil || last.Label.Name != block.Label.Name {
+			continue
+		}
+		if !setsFalse(ifs.Body.List) {
+			return nil
+		}
+		guards = append(guards, ifs.Cond)
+	}
+	if len(guards) != breaks {
+		return nil // an exit that is not a plain top-level guard: nothing is concluded
+	}
+	return guards
 }
 
 func collectFacts(parents map[ast.Node]ast.Node, at ast.Node) []condFact {
@@ -628,7 +745,8 @@ func ruleG2(r *Run) {
 		}
 		if c, ok := intConst(info, call.Args[1]); ok && c == 0 && nextCall != nil && call.Pos() > nextCall.Pos() {
 			for _, f := range collectFacts(parents, call) {
-				if be, ok := f.e.(*ast.BinaryExpr); ok && !f.neg && be.Op == token.EQL {
+				// err == nil holds: as a positive test, or as the failed test of `if err != nil { return }`
+				if be, ok := f.e.(*ast.BinaryExpr); ok && (!f.neg && be.Op == token.EQL || f.neg && be.Op == token.NEQ) {
 					if id, ok := ast.Unparen(be.Y).(*ast.Ident); ok && id.Name == "nil" {
 						reset = true
 					}
@@ -1672,7 +1790,51 @@ func ruleG11(r *Run) {
 	// after the wait the caller's own context decides: a caller whose context ended while it waited is not admitted
 	waited := false
 	var last *ast.ReturnStmt
-	for _, st := range fd.Body.List {
+	callerErr := func(e ast.Expr) bool {
+		if c, ok := ast.Unparen(e).(*ast.CallExpr); ok && methodName(c) == "Err" {
+			if se, ok := ast.Unparen(c.Fun).(*ast.SelectorExpr); ok {
+				if o := identObj(info, se.X); o != nil {
+					for _, pv := range paramsOf(info, fd.Type) {
+						if pv == o {
+							return true
+						}
+					}
+				}
+			}
+		}
+		return false
+	}
+	// the statement list the wait stands in (the function body, or the branch `if last > now { ... }`)
+	waitList := fd.Body.List
+	var findWait func(list []ast.Stmt) bool
+	findWait = func(list []ast.Stmt) bool {
+		for _, st := range list {
+			direct := false
+			ast.Inspect(st, func(n ast.Node) bool {
+				switch x := n.(type) {
+				case *ast.BlockStmt, *ast.FuncLit:
+					return false
+				case *ast.UnaryExpr:
+					if c, ok := ast.Unparen(x.X).(*ast.CallExpr); ok && x.Op == token.ARROW && methodName(c) == "Done" {
+						direct = true
+					}
+				}
+				return true
+			})
+			if direct {
+				waitList = list
+				return true
+			}
+			if ifs, ok := st.(*ast.IfStmt); ok && ifs.Else == nil && findWait(ifs.Body.List) {
+				return true
+			}
+		}
+		return false
+	}
+	findWait(fd.Body.List)
+	var setRes types.Object
+	setPos := token.NoPos
+	for _, st := range waitList {
 		ast.Inspect(st, func(n ast.Node) bool {
 			if u, ok := n.(*ast.UnaryExpr); ok && u.Op == token.ARROW {
 				if c, ok := ast.Unparen(u.X).(*ast.CallExpr); ok && methodName(c) == "Done" {
@@ -1684,21 +1846,35 @@ func ruleG11(r *Run) {
 		if rs, ok := st.(*ast.ReturnStmt); ok && waited {
 			last = rs
 		}
+		// err = ctx.Err() into the named result, the function then returns it
+		if as, ok := st.(*ast.AssignStmt); ok && waited && as.Tok == token.ASSIGN && len(as.Lhs) == 1 && len(as.Rhs) == 1 && callerErr(as.Rhs[0]) {
+			if o := identObj(info, as.Lhs[0]); o != nil && isParamOrResult(info, fd, o) {
+				setRes, setPos = o, as.End()
+			}
+		}
 	}
 	if waited {
-		okErr := false
-		if last != nil && len(last.Results) == 1 {
-			if c, ok := ast.Unparen(last.Results[0]).(*ast.CallExpr); ok && methodName(c) == "Err" {
-				if se, ok := ast.Unparen(c.Fun).(*ast.SelectorExpr); ok {
-					if o := identObj(info, se.X); o != nil {
-						for _, pv := range paramsOf(info, fd.Type) {
-							if pv == o {
-								okErr = true
-							}
+		okErr := last != nil && len(last.Results) == 1 && callerErr(last.Results[0])
+		if !okErr && last == nil && setRes != nil {
+			// nothing writes the result after that, and what returns after it returns the result
+			okErr = true
+			ast.Inspect(fd.Body, func(n ast.Node) bool {
+				switch x := n.(type) {
+				case *ast.FuncLit:
+					return false
+				case *ast.AssignStmt:
+					for _, l := range x.Lhs {
+						if x.Pos() > setPos && identObj(info, l) == setRes {
+							okErr = false
 						}
 					}
+				case *ast.ReturnStmt:
+					if x.Pos() > setPos && !(len(x.Results) == 0 || len(x.Results) == 1 && identObj(info, x.Results[0]) == setRes) {
+						okErr = false
+					}
 				}
-			}
+				return true
+			})
 		}
 		pos := fd.Pos()
 		if last != nil {
